@@ -133,6 +133,12 @@ class SmartList(list):
             raise ValueError("List only supports elements of type '%s'" %
                              self._content_type)
 
+        # Elements can be addressed by name like in __getitem__; work with the
+        # position, the list itself only takes an index.
+        if isinstance(key, str):
+            target = self[key]
+            key = next(idx for idx, obj in enumerate(self) if obj is target)
+
         # Assigning an element to its own position changes nothing; an element
         # of this list cannot replace another one, removing it from its current
         # position would invalidate *key*.
